@@ -103,8 +103,10 @@ fn run_config(e: &Expression, n_threads: usize, rpt: usize, case: &str, seed: u6
     let p = match prepare(e, n_threads, rpt) {
         Ok(p) => p,
         Err(why) => {
-            rep.count("config_not_prepared"); // C02/C04's subject
-            rep.count(&format!("not_prepared:{}", why.split(':').next().unwrap_or("")));
+            // every construct of this workload is supported: a program that cannot be executed in the
+            // model cannot be decided here (three-valued verdict: inconclusive, not a pass)
+            rep.count("config_not_prepared");
+            rep.inconclusive.push(format!("C16 configuration {} could not be executed in the model runtime: {}", case, why.chars().take(200).collect::<String>()));
             return;
         }
     };
@@ -177,6 +179,28 @@ pub fn run(ctx: &Ctx, rep: &mut Report) {
         let plain = (i / 12) % 2 == 0;
         let e = if (i / 24) % 5 == 4 && plain { t(Test::True) } else { build_expr(&mut r, printers, plain) };
         run_config(&e, threads, rpt, &format!("config:{}", i), ctx.seed ^ i, dfs, random, ctx.tier_thorough, rep);
+    });
+    // high identifiers: many matchers before the printers so that printer indices / frame tags pass
+    // 0x7f and 0xff (the generator formats them, and may special-case them)
+    let n_high = ctx.pick(12, 200);
+    par_cases(ctx, "highindex", n_high, rep, |i, rep| {
+        let mut r = Rng::for_case(ctx.seed, "highindex", i);
+        let k = [0usize, 70, 130, 260][(i % 4) as usize] + r.usize(5);
+        let mut e: Option<Expression> = None;
+        for j in 0..k {
+            let node = or(t(Test::Name(format!("n{}", j))), t(Test::True));
+            e = Some(match e {
+                None => node,
+                Some(p) => list(p, node),
+            });
+        }
+        let printers = 1 + r.usize(3);
+        let tail = build_expr(&mut r, printers, (i / 4) % 3 == 0);
+        let e = match e {
+            None => tail,
+            Some(p) => list(p, tail),
+        };
+        run_config(&e, 2 + (i % 2) as usize, 1 + ((i / 2) % 2) as usize, &format!("highindex:{}", i), ctx.seed ^ (i << 4), dfs, random, ctx.tier_thorough, rep);
     });
     // stress configurations: sampled schedules only
     let n_stress = ctx.pick(6, 100);
